@@ -1,4 +1,167 @@
-/- Line protocol of C20: placeholder until the model of this property is built. -/
+import BertE.Gen.Admin
+import BertE.Model.Admin
+import BertE.Drv.C01
+import BertE.Drv.C09
+import BertE.Drv.C18
+/-
+Line protocol of the admin jobs (C20). One line = one job on one repository state:
+  `C20 <useQueue 0/1>;<heads>;<tags>;<graph>;<job>;<branch>;<from>`
+    heads   `<name>=<commit>,...` | `-`     raw branch names in `git ls-remote --heads` order
+    tags    `<tag>=<commit>,...` | `-`
+    graph   `<commit>:<ancestor>.<ancestor>...,...`   one item per commit 0..n-1, in order (the commit itself excluded)
+    job     `create` | `delete` | `rebuild` | `delqueues` | `forcemerge`
+    branch  raw name | `-`
+    from    `-` (absent) | `b:<raw branch name>` | `c:<commit>` | `u` (something git cannot resolve)
+  The raw names are classified by the C18 model of `branch_factory` (`BertE.Names.classify` on the table of the
+  current source), the cascade constants are those of the current source (`Drv.C09.genCfg`).
+Answer: `<outcome>|<operations>|<heads after>|<tags after>|<re-submitted pull requests>`
+  outcome     `JobSuccess` | `NothingToDo` | `NotMyJob` | `JobFailure:<why>` | `<exception class>` | `delegated`
+  operations  `P:<ref>` (push of one branch) · `A` (push --all --atomic --prune) · `D:<ref>` (deletion) · `T:<tag>`
+  heads/tags  what the remote holds when every operation is accepted; refs print as in the C01 protocol.
+-/
 namespace BertE.Drv.C20
-def handle (_args : List String) : String := "bad-op"
+open BertE.Git BertE.Flow BertE.Admin
+
+/-- the tag-name literals regenerated from the source -/
+def genLits : Lits :=
+  { createChecksVersion := BertE.Gen.Admin.createChecksVersion, createSuffixes := BertE.Gen.Admin.createSuffixes,
+    hotfixBaseSuffix := BertE.Gen.Admin.hotfixBaseSuffix, deleteSuffixes := BertE.Gen.Admin.deleteSuffixes }
+
+/-- the version a `w/`, `q/`, `q/w/` name carries, as the destination it stands for (number of version numbers) -/
+def destOfVersion (p : BertE.Names.Parsed) : Option Dest :=
+  match p.major, p.minor, p.micro, p.hfrev with
+  | some M, m, none, _ => some (.dev M m)
+  | some M, some m, some u, none => some (.stab M m u)
+  | some M, some m, some u, some _ => some (.hotfix M m u)
+  | _, _, _, _ => none
+
+/-- a raw branch name as a structured ref, and whether `branch_factory` recognises it -/
+def refOfName (s : String) : Ref × Bool :=
+  match BertE.Names.classify BertE.Drv.C18.genTbl s.toList with
+  | none => (.other s, false)
+  | some p =>
+    match p.kind with
+    | .development => (match p.major with | some M => .dest (.dev M p.minor) | none => .other s, true)
+    | .stabilization =>
+      (match p.major, p.minor, p.micro with
+        | some M, some m, some u => .dest (.stab M m u)
+        | _, _, _ => .other s, true)
+    | .hotfix =>
+      (match p.major, p.minor, p.micro with
+        | some M, some m, some u => .dest (.hotfix M m u)
+        | _, _, _ => .other s, true)
+    | .queue => (match destOfVersion p with | some d => .q d | none => .other s, true)
+    | .queueIntegration =>
+      (match destOfVersion p, p.prId, p.featureBranch with
+        | some d, some pr, some f => .qw pr d (String.ofList f)
+        | _, _, _ => .other s, true)
+    | .integration =>
+      (match destOfVersion p, p.featureBranch with
+        | some d, some f => .w d (String.ofList f)
+        | _, _ => .other s, true)
+    | _ => (.other s, true)
+
+def parsePairs (s : String) : Option (List (String × Nat)) :=
+  if s == "-" || s == "" then some [] else
+  (s.splitOn ",").mapM fun kv =>
+    match kv.splitOn "=" with
+    | [k, v] => v.toNat?.map fun n => (k, n)
+    | _ => none
+
+def parseGraph (s : String) : Option Graph :=
+  if s == "-" || s == "" then some ⟨[]⟩ else
+  ((s.splitOn ",").mapM fun (it : String) =>
+    match it.splitOn ":" with
+    | [c, l] => do
+      let n ← c.toNat?
+      let as ← BertE.Drv.C01.parseNats l "."
+      pure (n :: as)
+    | _ => none).map fun l => ⟨l⟩
+
+def parseFrom (s : String) : Option (Option Rev) :=
+  if s == "-" then some none
+  else if s == "u" then some (some .unknown)
+  else match s.toList with
+    | 'b' :: ':' :: r => some (some (.branch (refOfName (String.ofList r)).1))
+    | 'c' :: ':' :: r => (String.ofList r).toNat?.map fun n => some (.commit n)
+    | _ => none
+
+def showCascadeErr : BertE.Cascade.Err → String
+  | .unsupportedMultipleStabBranches => "UnsupportedMultipleStabBranches"
+  | .deprecatedStabilizationBranch => "DeprecatedStabilizationBranch"
+  | .devBranchDoesNotExist => "DevBranchDoesNotExist"
+  | .notASingleDevBranch => "NotASingleDevBranch"
+  | .versionMismatch => "VersionMismatch"
+  | .devBranchesNotSelfContained => "DevBranchesNotSelfContained"
+  | .attributeError => "AttributeError"
+  | .keyError => "KeyError"
+
+def showWhy : Why → String
+  | .notGwf => "notGwf"
+  | .notDestination => "notDestination"
+  | .archiveTag t => "archiveTag:" ++ t
+  | .branchingPoint => "branchingPoint"
+  | .noDevForStab => "noDevForStab"
+  | .queuedData => "queuedData"
+  | .cascade e => "cascade:" ++ showCascadeErr e
+  | .stabAlive => "stabAlive"
+  | .tagPush => "tagPush"
+
+def showExc : Exc → String
+  | .cascade e => showCascadeErr e
+  | .indexError => "IndexError"
+  | .branchCreationFailed => "BranchCreationFailedException"
+  | .unrecognizedBranchPattern => "UnrecognizedBranchPattern"
+  | .checkoutFailed => "CheckoutFailedException"
+
+def showOutcome : Outcome → String
+  | .success => "JobSuccess"
+  | .nothingToDo => "NothingToDo"
+  | .notMyJob => "NotMyJob"
+  | .failure w => "JobFailure:" ++ showWhy w
+  | .raised e => showExc e
+  | .delegated => "delegated"
+
+def showOp : AOp → String
+  | .ref (.push ups) => ",".intercalate (ups.map fun rc => "P:" ++ BertE.Drv.C01.showRef rc.1)
+  | .ref (.pushAll _ _) => "A"
+  | .ref (.delete r) => "D:" ++ BertE.Drv.C01.showRef r
+  | .pushTag t _ => "T:" ++ t
+
+def sortPairs (l : List (String × Nat)) : List (String × Nat) :=
+  l.foldl (fun acc x => BertE.Drv.C01.insertSorted x acc) []
+
+def showPairs (l : List (String × Nat)) : String :=
+  ",".intercalate ((sortPairs l).map fun x => s!"{x.1}={x.2}")
+
+/-- distinct keys, first binding wins (what `RefMap.get` sees) -/
+def visible (m : RefMap) : RefMap :=
+  m.foldl (fun acc rc => if acc.any (fun x => x.1 == rc.1) then acc else acc ++ [rc]) []
+
+def answer (st : Repo) (r : Result) : String :=
+  let fin := applyAs st.g noRej (fun _ => false) (st.heads, st.tags) r.ops
+  showOutcome r.outcome ++ "|" ++ ",".intercalate (r.ops.map showOp) ++ "|" ++
+    showPairs ((visible fin.1).map fun rc => (BertE.Drv.C01.showRef rc.1, rc.2)) ++ "|" ++
+    showPairs fin.2 ++ "|" ++ ",".intercalate (r.resubmit.map toString)
+
+def handle (args : List String) : String :=
+  let line := " ".intercalate args
+  match line.splitOn ";" with
+  | [uq, hs, ts, gr, job, br, fr] =>
+    match parsePairs hs, parsePairs ts, parseGraph gr, parseFrom fr with
+    | some heads, some tags, some g, some from_ =>
+      let st : Repo := { g := g, heads := heads.map (fun kv => ((refOfName kv.1).1, kv.2)), tags := tags,
+                         useQueue := uq == "1" }
+      let cfg := BertE.Drv.C09.genCfg
+      let nm := refOfName br
+      match job with
+      | "create" => answer st (createBranch cfg genLits st nm.1 nm.2 from_)
+      | "delete" => answer st (deleteBranch cfg genLits st nm.1 nm.2)
+      | "rebuild" => answer st (rebuildQueues cfg st)
+      | "delqueues" => answer st (deleteQueues st)
+      | "forcemerge" => answer st (forceMergeQueues st)
+      | _ => "bad-op job"
+    | _, _, _, _ => "bad-op state"
+  | _ => "bad-op"
+
 end BertE.Drv.C20
